@@ -1,7 +1,7 @@
 //go:build verif
 
 // C08: cancellation, context propagation and publish hooks behave predictably.
-// Every handler list (length 0-3 over sync / ctx-aware / async / async ctx-aware) x every
+// Every handler list (length 0-3 over sync / ctx-aware / async / async ctx-aware / sync Once) x every
 // cancellation point x every subset of the four hooks x with/without an observability
 // implementation that replaces the context; async tasks explored.
 package main
@@ -32,6 +32,7 @@ var kinds = []struct {
 	{"ctx", evt.SubOpts{Ctx: true}},
 	{"async", evt.SubOpts{Async: true}},
 	{"async-ctx", evt.SubOpts{Async: true, Ctx: true}},
+	{"once", evt.SubOpts{Once: true}},
 }
 
 type kcase struct {
